@@ -195,7 +195,20 @@ var c15Names = []string{"100%", "path%20name", "%s%d%v", "%!(NOVERB)", "a\r\nb",
 
 func c15Extra(rng *rand.Rand) []string {
 	nm := func() string { return pick(rng, c15Names) }
-	switch rng.Intn(38) {
+	switch rng.Intn(44) {
+	case 38:
+		// error replies that quote what the client sent
+		return []string{"NOSUCH" + nm(), nm(), nm()}
+	case 39:
+		return []string{nm(), nm()}
+	case 40:
+		return []string{pick(rng, []string{"CLIENT", "COMMAND", "OBJECT"}), nm(), nm()}
+	case 41:
+		return []string{pick(rng, []string{"SELECT", "INCRBY", "EXPIRE", "HELLO", "GETRANGE"}), nm(), nm()}
+	case 42:
+		return []string{"SET", "k", "v", nm()}
+	case 43:
+		return []string{pick(rng, []string{"LPOP", "HINCRBY", "SETBIT", "BITFIELD"}), "hn", nm(), nm(), nm()}
 	case 30:
 		return []string{"HSET", "hn", nm(), nm(), nm(), "v"}
 	case 31:
